@@ -9,19 +9,38 @@ Local Open Scope R_scope.
 (* same function symbols, but SymPy orders sums/products its own way and writes x^2 for x*x.           *)
 (* ================================================================================================== *)
 
-Ltac vp_alg := first [ reflexivity | ring | (field; repeat split; assumption) ].
+Ltac vp_alg := first [ reflexivity | ring | (unfold Rdiv; ring) | (field; repeat split; assumption) ].
 
-(* make the arguments of the occurrences of a unary / binary / ternary function syntactically equal
-   whenever they are provably (ring) equal *)
-Ltac vp_unify1 f :=
-  repeat match goal with
+(* make the arguments of the occurrences of a unary / binary / ternary function syntactically equal whenever they
+   are provably (ring) equal.  The distinct arguments are collected first, so the number of ring calls is quadratic
+   in the number of DISTINCT arguments only. *)
+Inductive vp_nil : Prop := vp_nil_intro.
+
+Ltac vp_collect1 f acc :=
+  match goal with
   | |- context [f ?a] =>
-      match goal with
-      | |- context [f ?b] =>
-          tryif constr_eq a b then fail
-          else (replace (f a) with (f b) by (apply f_equal; vp_alg))
+      lazymatch acc with
+      | context [a] => fail
+      | _ => vp_collect1 f (a, acc)
       end
+  | _ => acc
   end.
+
+Ltac vp_try_merge1 f a rest :=
+  lazymatch rest with
+  | (?b, ?rest') =>
+      try (replace (f a) with (f b) by (apply f_equal; vp_alg));
+      vp_try_merge1 f a rest'
+  | _ => idtac
+  end.
+
+Ltac vp_merge_all1 f l :=
+  lazymatch l with
+  | (?a, ?rest) => vp_try_merge1 f a rest; vp_merge_all1 f rest
+  | _ => idtac
+  end.
+
+Ltac vp_unify1 f := let l := vp_collect1 f vp_nil_intro in vp_merge_all1 f l.
 
 Ltac vp_unify2 f :=
   repeat match goal with
